@@ -46,6 +46,9 @@ VALUES += [
     # unions that directly contain an object next to a scalar (same keys, different value kinds across samples)
     ("L(O(k:int),int)", [{"k": 1}, 7]),
     ("L(O(k:lit_a),int)", [{"k": "a"}, 7]),
+    # depth-3 shapes whose innermost type still needs simplification
+    ("LL(int,float)", [[1, 2.5]]),
+    ("L(O(k:L(int,null)))", [{"k": [1, None]}]),
 ]
 VALUE = dict(VALUES)
 VALUE_NAMES = [n for n, _ in VALUES]
@@ -225,7 +228,7 @@ KEYWORD_CASES = sorted({f(k) for k in _kw.kwlist for f in (str.lower, str.capita
                         for f in (str.lower, str.capitalize, str.upper)})
 KEY_WORDS = ["class", "list", "List", "Optional", "Any", "Dict", "Union", "Literal", "field", "Field", "BaseModel",
              "dataclass", "attr", "datetime", "date", "type", "id", "pk", "self", "None", "schema", "SQLModel",
-             "IntString", "ClassType", "convert_strings", "optional", "Root"]
+             "IntString", "ClassType", "convert_strings", "optional", "Root", "IsoDateString", "iso_date_string", "IsoTimeStrings", "iso_datetime_string"]
 
 
 def key_strings(symbols, max_len):
